@@ -269,6 +269,21 @@ def ghost_const(name: str, typ: Any = bytes) -> Any:
     raise NotImplementedError("ghost constants have no run-time form")
 
 
+def ghost_exists(path: str) -> bool:
+    """Whether the file system has the path; run-time form: the real os.path.exists."""
+    import os
+
+    return os.path.exists(path)
+
+
+def ghost_stat(path: str) -> tuple:
+    """(modification time in ns, size) the file system reports for a path; run-time form: the real os.stat."""
+    import os
+
+    st = os.stat(path)
+    return (st.st_mtime_ns, st.st_size)
+
+
 def typed(x: Any, t: Any) -> bool:
     return isinstance(x, t)
 
